@@ -198,6 +198,13 @@ def run_ast_case(case, res, prop):
         if s2.state.instruction_memory.get_representation() != reprs[0]:
             res.violation("C14", "listing-round-trip", "re-assembling the printed listing gives a different listing", case)
             return
+        # the text may round-trip while the instruction behind it does not (e.g. a printed jump target that is
+        # not the encoded one): compare the instructions themselves, address by address
+        l1, l2 = listing(sim), listing(s2)
+        for (a1, f1), (a2, f2) in zip(l1, l2):
+            if a1 != a2 or f1 != f2:
+                res.violation("C14", "listing-round-trip", "address %d: %r prints as %r which re-assembles to %r" % (a1, f1, dict(reprs[0])[a1], f2), case)
+                return
     except Exception as e:
         res.violation("C14", "listing-round-trip", "re-assembling the printed listing failed: %r" % (e,), case)
         return
@@ -480,6 +487,8 @@ def rt_one(rng, m, regs=None):
     if m in ("lui", "auipc"):
         return (m, {"rd": rd, "imm": pick("u", 0, 0xFFFFF)})
     if m == "jal":
+        if rng.random() < 0.5:  # absolute target (printed form) incl. address 0 and the neighbourhood of the instruction
+            return (m, {"rd": rd, "abs": rng.choice([0, 0, 4, 8, 12, 2 * rng.randrange(0, 300), -4, -8])})
         return (m, {"rd": rd, "imm": pick("j", -(1 << 20), (1 << 20) - 2, True)})
     if m in ("csrrw", "csrrs", "csrrc"):
         return (m, {"rd": rd, "csr": pick("csr", 0, 0xFFF), "rs1": rs1})
@@ -493,7 +502,8 @@ def build(m, kw, addr):
 
     cls = instruction_map[m]
     if m == "jal":
-        return cls(rd=kw["rd"], imm=kw["imm"], abs_addr=addr + kw["imm"])
+        imm = kw["abs"] - addr if "abs" in kw else kw["imm"]
+        return cls(rd=kw["rd"], imm=imm, abs_addr=addr + imm)
     if m in ("ecall", "ebreak"):
         return cls()
     return cls(**kw)
